@@ -1795,3 +1795,63 @@ func r098(c *Ctx, r *R) {
 		}
 	}
 }
+
+func init() {
+	register(&Rule{ID: "R08.7", Props: []string{"C08", "C09", "C14"}, Floor: 3, Title: "one fresh record per decoded message: a decoder call that runs once per loop iteration decodes into a variable allocated in that iteration (decoders keep the fields an input omits and reuse byte slices, and the address is often handed on)", Run: r087})
+}
+
+func r087(c *Ctx, r *R) {
+	decoders := []string{"encoding/json.Decoder).Decode", "codec.Decoder).Decode", "=encoding/json.Unmarshal", "msgpack.Decoder).Decode", "proto.Unmarshal", "api.Pin).ProtoUnmarshal"}
+	n := 0
+	c.P.RepoFuncs(func(f *ssa.Function) {
+		if f.Blocks == nil || f.Pkg == nil || strings.HasPrefix(f.Pkg.Pkg.Path(), ModPath+"/test") {
+			return
+		}
+		for _, ci := range findCalls(f, false, decoders...) {
+			b := ci.Block()
+			var header *ssa.BasicBlock
+			for d := b; d != nil; d = d.Idom() {
+				if inNaturalLoop(b, d) {
+					header = d
+					break
+				}
+			}
+			if header == nil {
+				continue // decoded once
+			}
+			// the target: the last pointer-typed argument (or receiver for ProtoUnmarshal)
+			args := ci.Common().Args
+			var target ssa.Value
+			for i := len(args) - 1; i >= 0; i-- {
+				a := args[i]
+				if mi, ok := a.(*ssa.MakeInterface); ok {
+					a = mi.X
+				}
+				if _, ok := a.Type().Underlying().(*types.Pointer); ok {
+					target = a
+					break
+				}
+			}
+			if nameMatches(callName(ci.Common()), "api.Pin).ProtoUnmarshal") {
+				target = args[0]
+			}
+			al, ok := target.(*ssa.Alloc)
+			if !ok {
+				// a field of an outer object, a parameter, a fresh `new`
+				// from a call: only plain variables are this rule's business
+				if call, _ := originCall(target); call != nil {
+					continue
+				}
+				continue
+			}
+			n++
+			key := "fresh:" + strings.TrimPrefix(f.Pkg.Pkg.Path(), ModPath) + "." + f.Name()
+			if f.Parent() != nil {
+				key += "$" + f.Parent().Name()
+			}
+			inLoop := al.Block() == header || inNaturalLoop(al.Block(), header)
+			r.Check(inLoop, key, ci.Pos(), "the decode target is allocated in the iteration that decodes into it", fmt.Sprintf("%s decodes every message of the loop into the same variable %q (declared outside the loop): fields an input omits keep the previous message's values, and whatever keeps the address sees every later message", f.Name(), al.Comment))
+		}
+	})
+	_ = n
+}
